@@ -119,6 +119,41 @@ def values(depth, rng, limit):
     return out
 
 
+def variants_of(v, rng):
+    """values that differ from `v` in one place (or only in insertion order)"""
+    import copy
+    out = []
+    if isinstance(v, dict) and v:
+        k = rng.choice(sorted(v))
+        w = {("zz" + k if kk == k else kk): copy.deepcopy(x) for kk, x in v.items()}
+        out.append(w)
+        w = copy.deepcopy(v)
+        del w[k]
+        out.append(w)
+        out.append({kk: copy.deepcopy(v[kk]) for kk in reversed(list(v))})
+        for kk in v:
+            for sub in variants_of(v[kk], rng)[:2]:
+                w = copy.deepcopy(v)
+                w[kk] = sub
+                out.append(w)
+    elif isinstance(v, list) and v:
+        out.append(copy.deepcopy(v[:-1]))
+        out.append(copy.deepcopy(v))
+        i = rng.randrange(len(v))
+        for sub in variants_of(v[i], rng)[:2]:
+            w = copy.deepcopy(v)
+            w[i] = sub
+            out.append(w)
+    elif isinstance(v, bool):
+        out.append(not v)
+    elif isinstance(v, int):
+        out.append(v + 1)
+    elif isinstance(v, str):
+        out.append(v + "x")
+    # only same-kind comparisons (a kind mismatch is an error, judged elsewhere)
+    return [w for w in out if type(w) is type(v)]
+
+
 def value_scripts(ctx):
     rng = ctx.rng
     vs = values(4 if ctx.tier == "thorough" else 3, rng, 6000 if ctx.tier == "thorough" else 500)
@@ -150,6 +185,9 @@ def shared_scripts(ctx):
 
 
 ERROR_ORDER_SCRIPTS = [
+    # nesting that the host stack carries with a wide margin: the outcome must not depend on runtime knobs of the environment
+    "fn d(n) {\n    if n == 0 {\n        return 0\n    }\n    return 1 + d(n - 1)\n}\nprint(\"start\")\nprint(d(60))\n",
+    "fn nest(n) {\n    r := []\n    i := 0\n    while i < n {\n        r = [r]\n        i += 1\n    }\n    return r\n}\nprint(nest(300) == nest(300))\n",
     # several candidates for "the" error: which one is reported (and where) must not depend on the run
     "fn area(width, height, width, height) {\n    return 1\n}\n",
     "fn f(a, b, c, a, b, c) {\n    return 1\n}\n",
@@ -176,14 +214,15 @@ def run_variant(src, k, base):
         stdin = subprocess.DEVNULL
         to_file = False
         if k == 1:
-            env.update({"LANG": "C", "LC_ALL": "C", "SEED_DEBUG": "1", "RUST_BACKTRACE": "0"})
+            env.update({"LANG": "C", "LC_ALL": "C", "SEED_DEBUG": "1", "RUST_BACKTRACE": "0", "RUST_MIN_STACK": "300000"})
             arg = "./sub/prog.sd"
         elif k == 2:
             env = {"PATH": "/usr/bin", "LANG": "tr_TR.UTF-8", "HOME": "/nonexistent", "TZ": "Pacific/Kiritimati"}
             cwd, arg = d / "sub", "prog.sd"
             to_file = True
         elif k == 3:
-            env.update({"LC_ALL": "en_US.UTF-8", "COLUMNS": "10", "NO_COLOR": "1", "RUST_LOG": "trace"})
+            env.update({"LC_ALL": "en_US.UTF-8", "COLUMNS": "10", "NO_COLOR": "1", "RUST_LOG": "trace", "RUST_MIN_STACK": "67108864",
+                        "RUST_BACKTRACE": "full"})
             cwd, arg = Path("/"), str(script)
             stdin = None
         elif k >= 4:
@@ -235,6 +274,27 @@ def run(ctx, model_ok):
             ctx.violation("printing is not the canonical rendering / differs between construction histories", src,
                           {"expected_stdout": exp, "cli": c, "failing_values": len(bad)})
     tie.report_disagreements(ctx, [d for d in dis if d[0] not in {b[0] for b in bad}], "values")
+    # values that compare equal print identically — and values that print differently do not compare equal: each value against
+    # variants of itself (a key renamed, a leaf changed, an element dropped, another insertion order)
+    vs = values(3, ctx.rng, 120)
+    variant_scripts = []
+    for v in vs:
+        for w in variants_of(v, ctx.rng):
+            variant_scripts.append(f"a := {lit(v)}\nb := {lit(w)}\nprint(a == b)\nprint(\"#\")\nprint(a)\nprint(\"#\")\nprint(b)\n")
+    variant_scripts = list(dict.fromkeys(variant_scripts))
+    vimpl, vdis = tie.run(ctx, variant_scripts, "equal-prints-equal", model_ok)
+    nrep = 0
+    for src, r in zip(variant_scripts, vimpl):
+        parts = r["stdout"].split("#\n")
+        ctx.nontrivial(("variant", parts[0].strip(), len(src)))
+        if r["status"] == "0" and len(parts) == 3 and ((parts[0] == "true\n") != (parts[1] == parts[2])) and nrep < 2:
+            c = core.run_cli(src)
+            p2 = c["stdout"].split("#\n")
+            if c["status"] == "0" and len(p2) == 3 and ((p2[0] == "true\n") != (p2[1] == p2[2])):
+                nrep += 1
+                ctx.violation("`==` and `print` disagree: values that compare equal must print identically (and these values differ "
+                              "exactly when their renderings differ)", src, {"cli": c})
+    tie.report_disagreements(ctx, vdis, "equal-prints-equal")
     # a `print` whose value cannot be rendered (a string that is not valid UTF-8, wherever it sits in the value) writes
     # nothing at all: what stdout holds is the rendering of complete prints only
     unprintable = []
